@@ -154,4 +154,12 @@ def tableExt (rows : List Row) (u : String) : Bool :=
     | .resp _ (some l) => l == u && r.ext
     | _ => false
 
+/-- The `redirection_loop` field of `ExplainRequestOutput::create_result`: the analysis first builds
+the request of the example itself (`Err` ⇒ the whole explain answers with an error message), then
+calls `RedirectionLoop::from_example`.  `none` = error message. -/
+def explainLoop (rows : List Row) (maxHops : Nat) (url method : String) : Option (State String String) :=
+  match tableStep rows url method with
+  | .reqErr => none
+  | _ => some (compute (tableStep rows) (tableExt rows) Rio.Consts.loopRewriteMethod maxHops url method)
+
 end Rio.Loop
